@@ -160,6 +160,9 @@ def e2e_case(rng, idx):
     if rng.random() < 0.3:
         mask = list("111111111")
     enable = [s for s, b in zip(A.SEVS, mask) if b == "1" and s in A.SEVS[2:7]]
+    if "style" in enable:          # cli/cmdlineparser.cpp: --enable=style also enables warning, performance and portability
+        for k in (2, 4, 5):
+            mask[k] = "1"
     allsev = mask == list("111111111")
     files = {}
     for k in range(nfiles):
@@ -175,7 +178,7 @@ def e2e_case(rng, idx):
 
 
 def run_e2e(c, idx):
-    d = os.path.join(WORK, "e2e", "c%d" % idx)
+    d = os.path.join(WORK, "e2e", "c%d" % idx)        # idx = position among the kept cases
     shutil.rmtree(d, ignore_errors=True)
     os.makedirs(d)
     for name in c["files"]:
@@ -237,19 +240,24 @@ def expected_xml_events(events):
         if e[0] == "F":
             if e[2] == b"internal":
                 continue
-            locs = tuple((l[0].decode("utf-8", "replace"), l[1], str(max(int(l[2]), 0)), l[3].decode()) for l in e[8])
-            out.append(("F", e[1], e[2].decode(), e[3], e[4], e[6].decode(), e[7].decode(), locs))
+            locs = tuple((ws(l[0]), l[1], str(max(int(l[2]), 0)), l[3].decode()) for l in e[8])
+            out.append(("F", ws(e[1]), e[2].decode(), e[3], e[4], e[6].decode(), e[7].decode(), locs))
         elif e[0] == "E":
             out.append(("E",))
     return out
+
+
+def ws(b):
+    """XML attribute-value normalisation: a literal tab / newline / CR in an attribute is read back as a space"""
+    return b.replace(b"\t", b" ").replace(b"\n", b" ").replace(b"\r", b" ")
 
 
 def norm_xml_event(e):
     """bring an XML event to the same shape: bytes for texts (undoing fixInvalidChars)"""
     if e[0] != "F":
         return e
-    locs = tuple((l[0], unfix(l[1]), l[2], l[3]) for l in e[7])
-    return ("F", e[1].encode("utf-8", "surrogatepass"), e[2], unfix(e[3]), unfix(e[4]), e[5], e[6], locs)
+    locs = tuple((ws(l[0].encode("utf-8", "surrogatepass")), unfix(l[1]), l[2], l[3]) for l in e[7])
+    return ("F", ws(e[1].encode("utf-8", "surrogatepass")), e[2], unfix(e[3]), unfix(e[4]), e[5], e[6], locs)
 
 
 def check(run, replay):
@@ -355,7 +363,32 @@ def check(run, replay):
 
     # ---- stream: end to end on the real binary
     n = 14 if quick else 300
-    ecs = [e2e_case(rng, k) for k in range(n)]
+    # a relayed column in [1e5, 2^31) makes ErrorMessage::toString ({code} line: std::string(column-1, ' ')) allocate
+    # gigabytes and run for minutes (observed: column 1410290982 -> 5.5 GB, 3 min, result still correct; see docs/C34.md);
+    # such cases stay in the executeAddons stream and are left out of the end-to-end runs
+    cand = [e2e_case(rng, k) for k in range(3 * n)]
+    pre = []
+    for c in cand:
+        for name, f in sorted(c["files"].items()):
+            pre.append(vlib.enc_case(model_fields({"mask": c["mask"], "prem": c["prem"], "builddir": c["builddir"], "addons": [f]})))
+    rc0, po, _ = vlib.run_lines([model], pre)
+    ecs, pi, skipped = [], 0, 0
+    for c in cand:
+        big = False
+        for name in sorted(c["files"]):
+            for e in split_events(vlib.dec_line(po[pi])) or []:
+                if e[0] == "F" and any(100000 <= int(l[3]) < 2 ** 31 for l in e[8]):
+                    big = True
+                # the XML report writes id and file names raw: a control character there makes the report ill-formed XML
+                # (reported to C26); such results stay in the executeAddons stream only
+                if e[0] == "F" and any(ch < 32 and ch not in (9, 10, 13) for t in [e[1]] + [l[0] for l in e[8]] for ch in t):
+                    big = True
+            pi += 1
+        if big:
+            skipped += 1
+        elif len(ecs) < n:
+            ecs.append(c)
+    run.extra["e2e_candidates_skipped_huge_column"] = skipped
     with ThreadPoolExecutor(max_workers=6) as ex:
         res = list(ex.map(lambda kc: run_e2e(kc[1], kc[0]), enumerate(ecs)))
     lines = []
